@@ -109,7 +109,7 @@ _make('rigid.Diagram.bx', 3,
 def _p_curry(ex):
     d = ex.sym_diagram('d', wf=True, global_inst=True)
     n = ex.sym_int('n_wires')
-    ex.assume(z3.And(1 <= n.t, n.t <= T.ty_len(d.dom.t)))
+    ex.assume(z3.And(0 <= n.t, n.t <= T.ty_len(d.dom.t)))
     left = ex.fork(2) == 1
     ex._curry = (d, n, left)
     return [d], {'n_wires': n, 'left': VBool(left)}
@@ -187,7 +187,7 @@ def _abs_curry(interp, args, kwargs):
     d = interp.world.as_diagram(args[0])
     n = kwargs.get('n_wires', args[1] if len(args) > 1 else VInt(1))
     left = kwargs.get('left', args[2] if len(args) > 2 else VBool(False))
-    _pre(ex, 'curry: 1 <= n_wires <= len(dom)', z3.And(1 <= n.t, n.t <= T.ty_len(d.dom.t)))
+    _pre(ex, 'curry: 0 <= n_wires <= len(dom)', z3.And(0 <= n.t, n.t <= T.ty_len(d.dom.t)))
     if ex.branch(left.t):
         wires, rest = ex.ty_split(d.dom.t, n.t)
         return _fresh_wf(interp, 'curry', rest, T.ty_concat(_adj(interp, wires, 'r'), d.cod.t))
@@ -344,7 +344,7 @@ _rule_init('BX', ['over', 'under'], lambda it, p, q: (_cat(p, q), _over(it, _R(q
 def _p_curry_init(ex):
     d = ex.sym_diagram('d', wf=True, global_inst=True)
     n = ex.sym_int('n_wires')
-    ex.assume(z3.And(1 <= n.t, n.t <= T.ty_len(d.dom.t)))
+    ex.assume(z3.And(0 <= n.t, n.t <= T.ty_len(d.dom.t)))
     left = ex.fork(2) == 1
     ex._curry_init = (d, n, left)
     return [VObject('biclosed.Curry'), d], {'n_wires': n, 'left': VBool(left)}
@@ -460,13 +460,11 @@ def _p_curry_branch(ex):
     F = _bF()
     # the curried wires W (n_wires = len(W) >= 1) and the remaining wires R of the inner diagram's domain
     wires, rest = z3.Const('W', T.TyS), z3.Const('R', T.TyS)
-    ex.assume(z3.Length(wires) >= 1)
     n = VInt(z3.Length(wires))
     left = ex.fork(2) == 1
     d = ex.sym_diagram('d', wf=True, global_inst=True,
                        dom=T.ty_concat(wires, rest) if left else T.ty_concat(rest, wires))
     cod = _under(it, VTy(wires), d.cod) if left else _over(it, d.cod, VTy(wires))
-    ex.assume(z3.Length(_FT(it, F, wires)) >= 1)
     b = z3.Const('rule', T.BoxS)
     ex.assume(T.bkind(b) == T.KINDS['Curry'])
     ex._rb = (F, VTy(rest), cod)
